@@ -23,7 +23,7 @@ LEVEL = "exploration"
 RUNS = {"quick": 60000, "thorough": 1500000}
 WALL = {"quick": 240, "thorough": 1500}
 PARTITIONS = [{"name": "default", "env": {}}]
-FAULT_KINDS = ["nan_entered_as_value", "reorder", "batch_split", "empty_batch", "nan_entry", "interleave", "outside_value",
+FAULT_KINDS = ["layout:readonly", "layout:strided", "layout:fortran", "layout:byteswapped", "layout:scribble", "layout:masked", "nan_entered_as_value", "reorder", "batch_split", "empty_batch", "nan_entry", "interleave", "outside_value",
                "edge_value", "gap_value", "keep_missed_off", "rebin_between_epochs"]
 RULE = ("one run = one seeded stream (<= 30 entries from an edge-centred pool) delivered to 2-4 replicas over "
         "equal fixed bins (1-3 D, all binning families, dtypes, keep_missed on/off, weights none/int/dyadic/float) "
@@ -116,8 +116,8 @@ def gen_deliveries(rng, mode, idxs, entries, ndim, first_epoch, keep_missed, max
         if first_epoch and (ndim == 1 or keep_missed):
             vias = {1: ["h1"], 2: ["h", "h2"], 3: ["h", "h3", "h3cols"]}[ndim]
             return [{"op": "construct", "idx": list(idxs), "via": rng.choice(vias),
-                     "cont": rng.choice(["list", "ndarray"])}]
-        return [{"op": "fill_n", "idx": list(idxs), "cont": rng.choice(conts)}]
+                     "cont": rng.choice(["list", "ndarray"]), "mem": rng.choice(build.MEM_MODES)}]
+        return [{"op": "fill_n", "idx": list(idxs), "cont": rng.choice(conts), "mem": rng.choice(build.MEM_MODES)}]
     order = list(idxs)
     rng.shuffle(order)
     out = []
@@ -133,7 +133,8 @@ def gen_deliveries(rng, mode, idxs, entries, ndim, first_epoch, keep_missed, max
         else:
             k = rng.randint(1, max(1, min(max_chunk, len(order) - i)))
             out.append({"op": "fill_n", "idx": order[i:i + k], "cont": rng.choice(conts),
-                        "dropna": (rng.random() < 0.8) and not keep_nan, "fold": rng.random() < 0.2})
+                        "dropna": (rng.random() < 0.8) and not keep_nan, "fold": rng.random() < 0.2,
+                        "mem": rng.choice(build.MEM_MODES)})
             i += k
         if rng.random() < 0.08:
             out.append({"op": "fill_n", "idx": [], "cont": rng.choice(conts)})
@@ -241,6 +242,35 @@ def batch_data(entries, idxs, ndim, cont):
         all_int = all(isinstance(e[1], int) and e[1] < 2 ** 31 for e in entries if e[1] is not None)
         weights = np.asarray(weights, dtype=np.int64 if all_int else np.float64)
     return data, weights
+
+
+def with_layout(ctx, data, weights, mem):
+    """Hand the batch over in the memory layout `mem` (arrays only)."""
+    held = []
+    if mem and mem != "fresh":
+        if isinstance(data, np.ndarray):
+            data = build.in_memory_layout(data, mem)
+            held.append(data)
+        if isinstance(weights, np.ndarray):
+            weights = build.in_memory_layout(weights, mem)
+            held.append(weights)
+        if held:
+            ctx.fault("layout:" + mem)
+    return data, weights, held
+
+
+def caller_looks_back(ctx, h, held, mem, what, kind_tag):
+    """After the call the caller overwrites the buffers it had handed over: the histogram must not care."""
+    if mem != "scribble" or not held:
+        return
+    pre = snap(h)
+    if not any([build.scribble_over(a) for a in held]):
+        return
+    d = snap_diff(pre, snap(h))
+    if d:
+        ctx.violation("C03/callers-array-untouched", f"C03/keeps-callers-buffer/{what}/{kind_tag}",
+                      f"after {what} the caller overwrote the arrays it had passed in and the histogram changed in {d}: "
+                      f"it still refers to the caller's memory")
 
 
 def numeric_state(h):
@@ -379,6 +409,7 @@ def execute(plan, ctx):
                 continue
             idxs = [i for i in op["idx"] if i < len(entries)]
             data, weights = batch_data(entries, idxs, ndim, op.get("cont", "ndarray"))
+            data, weights, held = with_layout(ctx, data, weights, op.get("mem"))
             bins = [build.make_binning(a) for a in hs["axes"]]
             kw = {}
             if weights is not None:
@@ -411,6 +442,7 @@ def execute(plan, ctx):
                               stop=False)
                 continue
             R.h = res
+            caller_looks_back(ctx, res, held, op.get("mem"), "construction", hist_kind(hs))
             R.bag += [i for i in idxs if not is_nan_entry(entries[i])]
             for i in idxs:
                 if not is_nan_entry(entries[i]):
@@ -523,6 +555,10 @@ def execute(plan, ctx):
                 data = np.asarray(data, dtype=float).reshape(2, -1)
                 if weights is not None:
                     kw["weights"] = np.asarray(weights).reshape(2, -1)
+                if op.get("mem") in ("fortran", "strided", "readonly"):
+                    # the block of values in another memory order than the block of weights
+                    data = np.asfortranarray(data) if op["mem"] != "readonly" else data.T.copy().T
+                    ctx.fault("layout:fortran")
                 ctx.probe("fill_n_2d_shaped_input")
             if n_nan:
                 ctx.fault("nan_entry", n_nan)
@@ -532,8 +568,15 @@ def execute(plan, ctx):
                 ctx.fault("batch_split")
             if idxs and idxs != sorted(idxs):
                 ctx.fault("reorder")
+            held = []
+            if not op.get("fold") and op.get("vt") != "f32":
+                data, w_, held = with_layout(ctx, data, kw.get("weights"), op.get("mem"))
+                if "weights" in kw:
+                    kw["weights"] = w_
             f_pre, e_pre, m_pre = numeric_state(h)
             ok, ret = attempt(h.fill_n, data, **kw)
+            if ok:
+                caller_looks_back(ctx, h, held, op.get("mem"), "fill_n", hist_kind(hs))
             ctx.ev(r, f"fill_n:{cont}", len(idxs), "ok" if ok else exc_tag(ret))
             ctx.abstract("fill_n", mode, cont, min(len(idxs), 3), n_nan > 0, ok)
             if not ok:
